@@ -22,10 +22,9 @@ int vh_conv(void)
 	return -1;
     alias = strcmp(vh_tok[2], "alias") == 0;
     for (int i = 0; i < 4; ++i)
-	in[i / 2][i % 2] = vh_parse_double(vh_tok[3 + 2 * i]) +
-	    I * vh_parse_double(vh_tok[4 + 2 * i]);
+	in[i / 2][i % 2] = CMPLX(vh_parse_double(vh_tok[3 + 2 * i]), vh_parse_double(vh_tok[4 + 2 * i]));
     for (int i = 0; i < 2; ++i)
-	z0[i] = vh_parse_double(vh_tok[11 + 2 * i]) + I * vh_parse_double(vh_tok[12 + 2 * i]);
+	z0[i] = CMPLX(vh_parse_double(vh_tok[11 + 2 * i]), vh_parse_double(vh_tok[12 + 2 * i]));
     for (size_t k = 0; k < sizeof(table) / sizeof(table[0]); ++k) {
 	if (strcmp(table[k].name, vh_tok[1]) != 0)
 	    continue;
@@ -94,12 +93,11 @@ int vh_convn(void)
     out = malloc(sizeof(double complex) * (n * n + 1));
     z0 = malloc(sizeof(double complex) * (n + 1));
     for (int i = 0; i < n * n; ++i) {
-	in[i] = vh_parse_double(vh_tok[4 + 2 * i]) + I * vh_parse_double(vh_tok[5 + 2 * i]);
+	in[i] = CMPLX(vh_parse_double(vh_tok[4 + 2 * i]), vh_parse_double(vh_tok[5 + 2 * i]));
 	out[i] = 12345.0 - 54321.0 * I;
     }
     for (int i = 0; i < n; ++i)
-	z0[i] = vh_parse_double(vh_tok[4 + 2 * n * n + 2 * i]) +
-	    I * vh_parse_double(vh_tok[5 + 2 * n * n + 2 * i]);
+	z0[i] = CMPLX(vh_parse_double(vh_tok[4 + 2 * n * n + 2 * i]), vh_parse_double(vh_tok[5 + 2 * n * n + 2 * i]));
     for (size_t k = 0; k < sizeof(ntable) / sizeof(ntable[0]); ++k) {
 	int cnt = n * n;
 	if (strcmp(ntable[k].name, vh_tok[1]) != 0)
